@@ -45,7 +45,8 @@ ProbeTuple(s, pt, rid, mid) ==
   << s, pt, rid, mid, e.last.allowed,
      IF last'.kind = "remove" THEN "LiveRegistrationKept" ELSE RuleOf(e.last, hist', mid, closed'),
      e.last.delivered, [x \in Ssrcs |-> e.bySsrc[x] # 0], e.last.by, e.last.failed # 0,
-     Cardinality(e.last.holders), Cardinality(e.last.provs), e.last.identified, e.last.unreg, e.last.sel \in full' >>
+     Cardinality(e.last.holders), Cardinality(e.last.provs), e.last.identified, e.last.unreg, e.last.sel \in full',
+     0 >>
 
 ProbeLine ==
   [ cfg    |-> [rid |-> cfg0.rid, mid |-> cfg0.mid],
